@@ -47,12 +47,12 @@ CHECKS = {
         technique='Lean 4 proof over a hand-written executable model, tied to /repo on every run by differential correspondence (compiled Lean driver vs real code on generated inputs) and regenerated source tables; independent Python oracle searches for failing inputs',
         ref='§4 C07'),
     'C08': dict(
-        text='Theorems for every heap, root and mode: every reported (value, path) satisfies follow_path; the un-memoized traversal reports exactly the valid paths, none twice; the memoized traversal reports every reachable mutable object exactly once; the all-paths query returns exactly the reaching paths without duplicates. Hypotheses WellFormed / PathsDistinct are decidable and enforced by the driver on every request. Correspondence of the (value, path) streams of iterate (3 modes), collect_paths_by_id, get_all_paths on random structures.',
+        text='Identity rebuild: returns on every acyclic structure, is faithful path for path, keeps sharing, and is idempotent (rebuilding the result reproduces it object for object). Theorems for every heap, root and mode: every reported (value, path) satisfies follow_path; the un-memoized traversal reports exactly the valid paths, none twice; the memoized traversal reports every reachable mutable object exactly once; the all-paths query returns exactly the reaching paths without duplicates. Hypotheses WellFormed / PathsDistinct are decidable and enforced by the driver on every request. Correspondence of the (value, path) streams of iterate (3 modes), collect_paths_by_id, get_all_paths on random structures.',
         note=TB + 'Also proved and tied: the identity rebuild (map_children) yields the same types, path-for-path equal values and the same sharing (Model/Rebuild). Partial: legacy traversals and the cycle error of iterate are decided by the oracle only.',
         technique='Lean 4 proof over a hand-written executable model, tied to /repo on every run by differential correspondence (compiled Lean driver vs real code on generated inputs) and regenerated source tables; independent Python oracle searches for failing inputs',
         ref='§4 C08'),
     'C09': dict(
-        text='Theorems: the bytes codec round-trips EVERY byte string; every symbol resolved while loading any document was approved by the policy; a denied reference raises. Correspondence of codec and policy gate with the real traverser / import_symbol; oracle: full round trip (types, leaves, callables, tags, sharing), second dump stable, strict JSON, no invocation, tampered documents.',
+        text='Theorems: the bytes codec round-trips EVERY byte string; every symbol resolved while loading any document was approved by the policy; a denied reference raises; the objects table of a document is the memoized post-order rebuild of the configuration: it is path for path the input, loading recreates it exactly, the round trip exists for every acyclic configuration, and dumping the reconstruction writes the very same table (second dump = same document). Correspondence of codec and policy gate with the real traverser / import_symbol; oracle: full round trip (types, leaves, callables, tags, sharing), second dump stable, strict JSON, no invocation, tampered documents.',
         note=TB + 'Structure: the objects table of a document is the memoized post-order rebuild of the configuration (C09_dump_is_faithful) and loading recreates it exactly (C09_load_of_dump); the real document text is read by an independent reader and compared with the table the model computes. Partial: sets, custom node types and the metadata encoding are outside the reader; json.dumps/loads trusted. One open finding (NaN/Infinity tokens).',
         technique='Lean 4 proof over a hand-written executable model, tied to /repo on every run by differential correspondence (compiled Lean driver vs real code on generated inputs) and regenerated source tables; independent Python oracle searches for failing inputs',
         ref='§4 C09'),
